@@ -23,6 +23,8 @@ import YashModel.Trap.Pending
 import YashModel.Trap.Sticky
 import YashModel.Trap.KillStop
 import YashModel.Trap.BuiltinLemmas
+import YashModel.Trap.Interleave
+import YashModel.Trap.Subshell
 namespace YashModel.Trap
 
 /-! ## The installed disposition is the reference merge -/
@@ -457,5 +459,287 @@ example :
     let r := waitTrapLoop (fun _ _ t => ({ exit := 0 }, t)) [SIGUSR1, SIGINT] t 0
     (r.2.map fun x => (x.1, x.2.1)) = some (SIGUSR1, 1) ∧ pendingCommands r.1 = [(SIGINT, 2)] := by
   decide
+
+/-! ## End-to-end statements (proof-deepening round) -/
+
+/-- ★ `exactly_once_any_interleaving` — "each delivery of a trapped signal makes its action run
+    exactly once, at the next command boundary, regardless of when the signal arrives".
+    ONE statement over every sequence of events `deliver x` (any signal, any number of times, at any
+    point) and `boundary main exit` (the boundary after a command whose own result `main` may be a
+    divert — `Command::execute` calls the runner in any case), for every trap set in key order,
+    every signal `s` with a command trap `c`, and actions that end in ANY way (normally, `return`,
+    `exit`, interrupted by an error …; they only must leave the trap set alone):
+    the history of `s` — deliveries (`true`) and runs (`false`) in order — is accepted by the POSIX
+    pending discipline `account` (a run only after a delivery not yet run: never spurious, never
+    twice), the signal is pending at the end exactly if its last delivery has not run yet, and
+      #runs + [still pending] = #coalesced deliveries,
+    where the coalescing is exactly the pending *flag*: a delivery that finds the signal already
+    pending merges with the earlier one (as the process's pending set and `catch_signal` do). -/
+theorem exactly_once_any_interleaving (body : Body) (hm : MapPreserving body) (s c : Nat)
+    (hs0 : s ≠ 0) (t : TrapMap) (hsorted : Sorted t) (hact : actionAt t s = some (.command c))
+    (hp : pendingAt t s = false) (evs : List BEv) :
+    ∃ runs deliveries,
+      account false (runBig body s t evs []).2
+        = some (pendingAt (runBig body s t evs []).1 s, runs, deliveries)
+      ∧ runs + (if pendingAt (runBig body s t evs []).1 s then 1 else 0) = deliveries := by
+  have h := runBig_account body hm s c hs0 evs t hsorted hact false [] (by simp [account, hp])
+  cases hacc : account false (runBig body s t evs []).2 with
+  | none => rw [hacc] at h; simp at h
+  | some p =>
+    obtain ⟨a, r, e⟩ := p
+    rw [hacc] at h
+    simp only [Option.map_some, Option.some.injEq] at h
+    subst h
+    refine ⟨r, e, rfl, ?_⟩
+    simpa using account_conserve false _ _ r e hacc
+
+/-- ★ "at the next command boundary": at a boundary where no action diverts, every pending command
+    trap has run (nothing stays pending), whatever the command itself resulted in; if an action
+    diverts, `pending_survives_divert` says the rest stays pending, and after as many boundaries as
+    pending actions all have run. -/
+theorem runs_at_next_boundary (body : Body) (hm : MapPreserving body) (main : Option Divert)
+    (t : TrapMap) (exit : Int)
+    (hnd : (runTrapsForCaughtSignals body false t exit).divert = none) :
+    (afterCommand body false main t exit).runs = pendingCommands t
+    ∧ pendingCommands (afterCommand body false main t exit).traps = [] := by
+  have hc := runTraps_conserve body hm t exit
+  have h0 := hc.2.1 hnd
+  have hpc := npend_zero_pendingCommands _ h0.1
+  have h1 := hc.1
+  rw [hpc, List.append_nil] at h1
+  exact ⟨h1, hpc⟩
+
+/-- ★ the runner is called after EVERY command, also one that itself ends in a divert (`return`,
+    `exit`, …): what runs and what stays pending does not depend on the command's own result, a due
+    action does run there, and neither divert is dropped by the merge. -/
+theorem boundary_after_diverting_command (body : Body) (hm : MapPreserving body)
+    (main : Option Divert) (t : TrapMap) (exit : Int) :
+    (afterCommand body false main t exit).runs = (runTrapsForCaughtSignals body false t exit).runs
+    ∧ (afterCommand body false main t exit).traps = (runTrapsForCaughtSignals body false t exit).traps
+    ∧ (pendingCommands t ≠ [] → (afterCommand body false main t exit).runs ≠ [])
+    ∧ (main.isSome → (afterCommand body false main t exit).divert.isSome)
+    ∧ ((runTrapsForCaughtSignals body false t exit).divert.isSome →
+        (afterCommand body false main t exit).divert.isSome) := by
+  refine ⟨rfl, rfl, ?_, ?_, ?_⟩
+  · intro hne hnil
+    have := (runTraps_conserve body hm t exit).2.2 hne
+    simp only [afterCommand] at hnil
+    rw [hnil] at this
+    simp at this
+  · intro hmain
+    simp only [afterCommand]
+    cases main with
+    | none => simp at hmain
+    | some d => cases (runTrapsForCaughtSignals body false t exit).divert <;> simp [mergeDivert]
+  · intro htrap
+    simp only [afterCommand]
+    cases hd : (runTrapsForCaughtSignals body false t exit).divert with
+    | none => rw [hd] at htrap; simp at htrap
+    | some d => cases main <;> simp [mergeDivert]
+
+/-- ★ flags only: over every interleaving of `catch_signal` calls (at any moment, also while an
+    action is running) and single iterations of the runner's loop, for every trap set in key order
+    and every signal — no assumption on the actions at all — the history of the signal is accepted
+    by the pending discipline and `#takes + [still pending] = #coalesced deliveries + [pending at the
+    start]`. -/
+theorem exactly_once_small_steps (s : Nat) (hs0 : s ≠ 0) (t : TrapMap) (hsorted : Sorted t)
+    (evs : List Ev) :
+    ∃ runs deliveries,
+      account (pendingAt t s) (runEvs s t evs []).2
+        = some (pendingAt (runEvs s t evs []).1 s, runs, deliveries)
+      ∧ runs + (if pendingAt (runEvs s t evs []).1 s then 1 else 0)
+          = deliveries + (if pendingAt t s then 1 else 0) := by
+  have h := runEvs_account s hs0 evs t hsorted (pendingAt t s) [] (by simp [account])
+  cases hacc : account (pendingAt t s) (runEvs s t evs []).2 with
+  | none => rw [hacc] at h; simp at h
+  | some p =>
+    obtain ⟨a, r, e⟩ := p
+    rw [hacc] at h
+    simp only [Option.map_some, Option.some.injEq] at h
+    subst h
+    exact ⟨r, e, rfl, account_conserve _ _ _ r e hacc⟩
+
+/-- ★ run order: `take_caught_signal` returns the pending signal with the LEAST number, clears
+    exactly its flag, and returns nothing only when no signal is pending. -/
+theorem least_pending_first (t : TrapMap) (hsorted : Sorted t) :
+    match (takeCaughtSignal t).2 with
+    | none => ∀ x, x ≠ 0 → pendingAt t x = false
+    | some (k, ts) =>
+      k ≠ 0 ∧ pendingAt t k = true
+      ∧ (∃ g, get t k = some g ∧ ts = { g.current with pending := false }
+          ∧ ∀ x, get (takeCaughtSignal t).1 x = if x = k then some g.handleIfCaught.1 else get t x)
+      ∧ ∀ x, x ≠ 0 → x < k → pendingAt t x = false :=
+  takeCaught_spec t hsorted
+
+/-- non-vacuity of `exactly_once_any_interleaving`: SIGINT (`return 3`) and SIGUSR1 trapped; USR1
+    delivered twice, INT once, a boundary after a command that itself diverted, USR1 again, two
+    more boundaries: USR1's history is D D R D R — two runs for two coalesced deliveries. -/
+example :
+    let t : TrapMap := set (set [] SIGUSR1 { current := { action := .command 1, origin := .user 0 } })
+        SIGINT { current := { action := .command 2, origin := .user 1 } }
+    let body : Body := fun c _ t => ({ exit := 3, divert := if c = 2 then some (.ret (some 3)) else none }, t)
+    let evs : List BEv := [.deliver SIGUSR1, .deliver SIGUSR1, .deliver SIGINT,
+      .boundary (some (.ret none)) 5, .boundary none 3, .deliver SIGUSR1, .boundary none 0]
+    (runBig body SIGUSR1 t evs []).2 = [true, true, false, true, false]
+    ∧ account false (runBig body SIGUSR1 t evs []).2 = some (false, 2, 2) := by
+  decide
+
+/-- ★ `subshell_dispositions` — what `enter_subshell` leaves for a signal that has an entry, for
+    each of the three per-signal options (`subshellOption`: SIGCHLD keeps, INT/QUIT of an
+    asynchronous command and the job-control stoppers are ignored, everything else is cleared):
+    the internal disposition survives only under `keep`; the action becomes `Ignore` under `ignore`
+    and otherwise the POSIX reset (a command trap becomes default and is remembered as the parent
+    state, ignore and default stay); and the installed disposition is accordingly
+    `Ignore` / `max internal reset` / `reset` — never a handler that is no longer needed. -/
+theorem subshell_dispositions (init : Nat → Disp) (st : State)
+    (h : Inv init st) (ii ks : Bool) (s : Nat) (hs0 : s ≠ 0) (g : GrandState)
+    (hg : get st.traps s = some g) :
+    ∃ g', get (enterSubshell st ii ks).traps s = some g'
+      ∧ g'.internal = (if subshellOption s g ii ks = .keep then g.internal else .default)
+      ∧ g'.current.action
+          = (if subshellOption s g ii ks = .ignore then .ignore else resetAction g.current.action)
+      ∧ g'.parent = (if g.current.action.isCommand then some g.current else none)
+      ∧ (enterSubshell st ii ks).sys.disp s
+          = (match subshellOption s g ii ks with
+             | .ignore => .ignore
+             | .keep => g.internal.max (resetAction g.current.action).toDisp
+             | .clear => (resetAction g.current.action).toDisp) := by
+  have hopt : subshellOption s g.clearParent ii ks = subshellOption s g ii ks := rfl
+  have hget := get_enterSubshell_some st ii ks s g hg
+  rw [hopt] at hget
+  have hf := enterState_fields g.clearParent (subshellOption s g ii ks)
+  have hinv := (inv_enterSubshell init st ii ks h).disp s hs0
+  rw [hget, expected_some, hf.1, hf.2.1] at hinv
+  refine ⟨_, hget, hf.1, hf.2.1, ?_, ?_⟩
+  · rw [hf.2.2]; rfl
+  · rw [hinv]
+    show (if subshellOption s g ii ks = .keep then g.internal else .default).max
+        (if subshellOption s g ii ks = .ignore then Action.ignore else resetAction g.current.action).toDisp = _
+    cases subshellOption s g ii ks <;>
+      simp [Action.toDisp, Disp.max_default_left]
+
+/-- ★ vacant entries on `enter_subshell`: SIGINT/SIGQUIT of an asynchronous command get an
+    `Ignore` entry and the `Ignore` disposition; every other untouched signal stays untouched. -/
+theorem subshell_vacant (init : Nat → Disp) (st : State)
+    (h : Inv init st) (ii ks : Bool) (s : Nat) (hs0 : s ≠ 0) (hg : get st.traps s = none) :
+    (ii = true ∧ (s = SIGINT ∨ s = SIGQUIT) → (enterSubshell st ii ks).sys.disp s = .ignore)
+    ∧ (¬ (ii = true ∧ (s = SIGINT ∨ s = SIGQUIT)) →
+        get (enterSubshell st ii ks).traps s = none
+        ∧ (enterSubshell st ii ks).sys.disp s = st.sys.disp s) := by
+  have hn := get_enterSubshell_none st ii ks s hg
+  have hinv := (inv_enterSubshell init st ii ks h).disp s hs0
+  have h0 := h.disp s hs0
+  rw [hg, expected_none] at h0
+  constructor
+  · intro hc
+    obtain ⟨g', hg', ha, hi⟩ := hn.1 hc
+    rw [hinv, hg', expected_some, ha, hi]; rfl
+  · intro hc
+    have := hn.2 hc
+    refine ⟨this, ?_⟩
+    rw [hinv, this, expected_none, h0]
+
+/-- non-vacuity of `subshell_dispositions` (the case of the seeded change: an interactive shell's
+    SIGINT, internal `Catch`, asynchronous command → `Ignore` installed, internal disposition gone) -/
+example :
+    let st := run (State.init fun _ => .default) [.enableTerminators, .enableChld]
+    subshellOption SIGINT ((get st.traps SIGINT).getD default) true false = .ignore
+    ∧ (enterSubshell st true false).sys.disp SIGINT = .ignore
+    ∧ ((get (enterSubshell st true false).traps SIGINT).map (·.internal)) = some .default
+    ∧ (enterSubshell st true false).sys.disp SIGCHLD = .catch := by
+  decide
+
+/-- ★ the Spec function `pendingCommands` meets its description: `(s, c)` is listed iff `s` is a
+    signal whose entry is pending with command `c`, at most once, and the list is in signal order
+    (for each `s` the sub-list is `owed`). -/
+theorem pendingCommands_spec (t : TrapMap) (hsorted : Sorted t) (s : Nat) :
+    (pendingCommands t).filter (fun p => p.1 == s) = owed (get t s) s :=
+  pendingCommands_filter t s hsorted
+
+/-! ## Shell-level histories: `TrapSet` operations and `trap` commands in any order -/
+
+/-- what a shell does to its trap set: a `TrapSet` operation, or a whole `trap` command -/
+inductive ShOp where
+  | op (o : Op)
+  | trap (origin : Nat) (interactive print : Bool) (operands : List String)
+
+def stepSh (cmdOf : String → Nat) (st : State) : ShOp → State
+  | .op o => step st o
+  | .trap origin i p operands => (trapMain cmdOf st origin i p operands).st
+
+def runSh (cmdOf : String → Nat) (st : State) : List ShOp → State
+  | [] => st
+  | o :: os => runSh cmdOf (stepSh cmdOf st o) os
+
+def flattenSh (cmdOf : String → Nat) : List ShOp → List Op
+  | [] => []
+  | .op o :: os => o :: flattenSh cmdOf os
+  | .trap origin i p operands :: os => trapMainOps cmdOf origin i p operands ++ flattenSh cmdOf os
+
+/-- ★ connecting theorem: every `trap` command (any options, any operands, accepted or rejected)
+    is a finite history of `peek_state` / `set_action` operations, so a shell-level history is a
+    `TrapSet` history and every theorem over all `Op` histories applies to it. -/
+theorem shell_history_is_op_history (cmdOf : String → Nat) (st : State) (ops : List ShOp) :
+    runSh cmdOf st ops = run st (flattenSh cmdOf ops) := by
+  induction ops generalizing st with
+  | nil => rfl
+  | cons o os ih =>
+    cases o with
+    | op o => simp only [runSh, stepSh, flattenSh, run]; exact ih _
+    | trap origin i p operands =>
+      simp only [runSh, stepSh, flattenSh]
+      rw [ih, trapMain_run, run_append]
+
+/-- in a non-interactive shell no `trap` command overrides an ignored-on-entry signal -/
+theorem trapMainOps_noOverride (cmdOf : String → Nat) (origin : Nat) (print : Bool)
+    (operands : List String) (s : Nat) : NoOverride s (trapMainOps cmdOf origin false print operands) := by
+  intro op hop
+  unfold trapMainOps at hop
+  cases hi : interpret cmdOf print operands with
+  | error e => rw [hi] at hop; cases hop
+  | ok cmd =>
+    rw [hi] at hop
+    cases cmd with
+    | printAll incl =>
+      simp only [trapCmdOps, List.mem_map] at hop
+      obtain ⟨c, _, rfl⟩ := hop; trivial
+    | print cs =>
+      simp only [trapCmdOps, List.mem_map] at hop
+      obtain ⟨c, _, rfl⟩ := hop; trivial
+    | setAction a cs =>
+      simp only [trapCmdOps, List.mem_map] at hop
+      obtain ⟨c, _, rfl⟩ := hop
+      simp [opNoOverride]
+
+/-- ★ `disposition_invariant`, `mask_iff_catch` and `initially_ignored_sticky` for shell-level
+    histories: any mix of `TrapSet` operations and `trap` commands (non-interactive for the
+    stickiness clause), from any inherited dispositions, for every signal. -/
+theorem shell_level_invariants (init : Nat → Disp) (hinit : ∀ s, init s ≠ .catch)
+    (cmdOf : String → Nat) (ops : List ShOp) (s : Nat) (hs0 : s ≠ 0) :
+    let st := runSh cmdOf (State.init init) ops
+    st.sys.disp s = expected (get st.traps s) (init s)
+    ∧ (st.sys.blocked s = true ↔ st.sys.disp s = .catch)
+    ∧ (init s = .ignore → NoOverride s (flattenSh cmdOf ops) →
+        (∀ g, get st.traps s = some g → g.current.action = .ignore ∧ g.current.origin = .inherited)
+        ∧ st.sys.disp s ≠ .default) := by
+  intro st
+  have hst : st = run (State.init init) (flattenSh cmdOf ops) := shell_history_is_op_history _ _ _
+  rw [hst]
+  refine ⟨disposition_invariant init hinit _ s hs0, mask_iff_catch init hinit _ s, ?_⟩
+  intro hign hno
+  have := initially_ignored_sticky init hinit s hs0 hign _ hno
+  exact ⟨this.1, this.2.1⟩
+
+/-- non-vacuity: `set_action`, then a plain `trap` (which peeks at every condition), then an
+    asynchronous subshell, in a shell that inherited QUIT ignored: 46 `TrapSet` operations in all -/
+example :
+    let init : Nat → Disp := fun s => if s = SIGQUIT then .ignore else .default
+    let cmdOf : String → Nat := fun _ => 1
+    let ops : List ShOp := [.op (.setAction SIGUSR1 (.command 1) 0 false), .trap 1 false false [],
+      .op (.enterSubshell true false)]
+    let st := runSh cmdOf (State.init init) ops
+    st.sys.disp SIGINT = .ignore ∧ st.sys.disp SIGQUIT = .ignore ∧ st.sys.disp SIGUSR1 = .default
+    ∧ (flattenSh cmdOf ops).length = 46 := by
+  set_option maxRecDepth 20000 in decide
 
 end YashModel.Trap
